@@ -72,6 +72,25 @@ Theorem C08_accept_erase_E1 : forall kinds g0 f0 ctx sp ss e sel s r ov s',
       wf s'' /\ head s'' v = Some (bty_head t).
 Proof. exact EraseAccept.accept_erase_E1. Qed.
 
+(* the other direction of "optional": an accepted block stays accepted when the inferred type of the value is written as
+   the annotation of any subset of its definitions (annotate1; an annotation already there is replaced by it) *)
+Theorem C08_accept_annotate_E1 : forall kinds g0 f0 ctx sp ss e sel s r ov s',
+  frag_stmts1 [] ss e = true -> NoDup (defs ss) -> wf s -> (forall x, In x (defs ss) -> fresh s x) ->
+  expression_block (gfix g0) (afix kinds (gfix g0) f0) sp (to_block1 sp ss e) ctx s = TyGraph.Ok ((r, ov), s') ->
+  forall g f, (max_depth ss e < S f)%nat ->
+    exists t c v s'',
+      ov = Some c /\ head s' c = Some (bty_head t) /\
+      expression_block (gfix (S (S (S (S g))))) (afix kinds (gfix (S (S (S (S g))))) (S (S f))) sp
+                       (to_block1 sp (annotate1 sel 0 [] ss) e) ctx s = TyGraph.Ok ((None, Some v), s'') /\
+      wf s'' /\ head s'' v = Some (bty_head t).
+Proof. exact EraseAccept.accept_annotate_E1. Qed.
+
+Example C08_annotate1_def : forall sel i E x k annot e q,
+  annotate1 sel i E (D1 x k annot e :: q) =
+  D1 x k (if sel i then (match ty1 E e with Some t => Some t | None => annot end) else annot) e ::
+  annotate1 sel (S i) (match ty_stmt1 E (D1 x k annot e) with Some E1 => E1 | None => E end) q.
+Proof. reflexivity. Qed.
+
 (* completeness of the checker on the fragment: a typed block (SoundE1.ty_block1: simple types with an environment)
    that passes the checks on kinds and purity is accepted, from every state in which its variables are fresh *)
 Theorem C08_typed_accepted_E1 : forall kinds g f ctx sp ss e t s,
@@ -149,6 +168,10 @@ Example C08_example_E1_erased_accepted :
         run_block (erase1 (fun _ => true) 0 blkE) with
   | TyGraph.Ok _, TyGraph.Ok _, TyGraph.Ok _ => true | _, _, _ => false end = true.
 Proof. vm_compute. reflexivity. Qed.
+Example C08_example_E1_annotated :
+  annotate1 (fun _ => true) 0 [] [D1 1 Mutable None (I1 1); D1 2 Const None (Bin1 Add (R1 1) (I1 2))]
+  = [D1 1 Mutable (Some TI) (I1 1); D1 2 Const (Some TI) (Bin1 Add (R1 1) (I1 2))].
+Proof. reflexivity. Qed.
 (* an annotation that is wrong is a type error; erased, the block is accepted: the annotation is only a check *)
 Example C08_example_E1_wrong_annotation :
   match run_block [D1 1 Mutable (Some TS) (I1 1); D1 2 Const None (F1 "2.5")],
@@ -159,6 +182,7 @@ Proof. vm_compute. reflexivity. Qed.
 Print Assumptions C08_checker_does_not_rewrite.
 Print Assumptions C08_accept_erase_E1.
 Print Assumptions C08_typed_accepted_E1.
+Print Assumptions C08_accept_annotate_E1.
 Print Assumptions C08_erase_block.
 Print Assumptions C08_fresh_after_init.
 Print Assumptions C08_lower_ignores_annotations.
